@@ -53,7 +53,8 @@ formula) 6.2e-15 - both at alpha = 1e10, r just below 1e-12, i.e. the truncation
 library's small-r branch, which bounds the decade range at 1e10 (1e12 would cost 3e-13); documented-factor
 clause 4.4e-16; far-field clause 4.4e-16; call forms (exact class) 4.2e-16, float32 alpha 9.6e-8 .. 1.4e-7
 (tolerance 1e-4, derived in CoulombForms!TolExp); configurations vs spec 1.0e-15, vs own superposition 0
-(bitwise); far point: rigorous dipole bound d / (R - d), used up to 0.95 of it.
+(bitwise); far point: twice the rigorous dipole bound d / (R - d) (the bound itself is attained by a centre on the axis: used
+up to 0.5 of the tolerance).
 
 Tolerance (calibrated on the pinned tree, 2026-09-25): largest relative deviation of
 ``coulomb_gaussian_s`` from the 50-digit tree value over the thorough set: 4.5e-16; of
@@ -858,7 +859,7 @@ def check_forms(rep, orc, tier, rng, forms, stats):
                     if ok:
                         if kind == "s" and arec["tol"] == "exact" and arec["dom"] != "smallint":
                             stats["forms_s"] = max(stats["forms_s"], rel)
-                        if arec["tol"] == "single":
+                        if arec["tol"] == "single" and kind == "s":      # (p: the deviation from the spec is the recorded finding)
                             stats["forms_single"] = max(stats["forms_single"], rel)
                         continue
                     if kind == "p":
@@ -1157,7 +1158,8 @@ def check_systems(rep, orc, tier, rng, forms, table, stats):
                             qmag += abs(mp.mpf(float(cc)) * nf)
                             dmax = max(dmax, float(np.linalg.norm(ctr)))
                     rv = float(outf[-1]) * far_r
-                    tolf = float(qmag) * (dmax / (far_r - dmax) + 1e-12)
+                    # |1/|R - c| - 1/R| <= d / (R (R - d)) is attained for a centre on the axis: twice the bound, plus rounding
+                    tolf = float(qmag) * (2 * dmax / (far_r - dmax) + 1e-12)
                     o["far"] = "ok" if abs(rv - float(qtot)) <= tolf else "bad"
                     if o["far"] == "bad":
                         detail["far"] = {"r_times_V": rv, "total_charge": float(qtot), "tolerance": tolf}
@@ -1301,7 +1303,7 @@ def replay(path: str) -> int:
     with open(path) as f:
         v = json.load(f)
     c = v.get("case") or {}
-    if "function" in c:
+    if "function" in c and "spec" in c and "normalized" in c:
         import grid.coulomb as gc
         out = getattr(gc, c["function"])(np.array([c["r"]]), c["alpha"], c["normalized"])
         print("replay:", c["function"], c["alpha"], c["r"], c["normalized"], "->", float(out[0]), "spec", c["spec"])
